@@ -168,6 +168,22 @@ class Snippet:
         self.text = sig + (mark('\n' + spec + '\n') if spec else '') + body
         self.splices += 1
 
+    def insert_ghost_params(self, params):
+        """Splice ghost parameters (Ghost(..) only) at the end of the parameter list of the fn: an addition, marked."""
+        self._freeze()
+        if not all(('Ghost(' + p).startswith('Ghost(') and ': Ghost<' in p for p in params.split('Ghost(') if p.strip()) or not params.strip().startswith('Ghost('):
+            raise Undecided("%s: only ghost parameters may be spliced" % self.label)
+        mask = _mask_keep_marks(self.text)
+        m = re.search(r'\bfn\s+\w+\s*(<[^>]*>)?\s*\(', mask)
+        if not m:
+            raise LostAnchor("%s: no parameter list" % self.label)
+        cp = match_close(mask, m.end() - 1)
+        k = cp
+        while k > 0 and self.text[k - 1] in ' \t\n,':
+            k -= 1
+        self.text = self.text[:k] + mark(', ' + params) + self.text[k:]
+        self.splices += 1
+
     def kani_attrs(self, attrs):
         """Splice attribute lines above the fn (Kani contracts)."""
         self._freeze()
